@@ -51,7 +51,10 @@ CFGS = ["t11", "t12", "t12cbc", "t12rsa", "t12ca", "t12ec", "t13", "t13ca", "t13
         "t12tk", "t12tk2", "t12tkrot", "t12tk3", "t12rid", "t13tk", "t13tk2", "d12rid", "t13hrr"]
 DTLS = {"d12", "d12ca", "d12cbc", "d12f", "d10", "d12rid"}
 MULTI_CONN = {"t12tk2": 2, "t12tkrot": 2, "t12tk3": 3, "t12rid": 2, "t13tk2": 2, "d12rid": 2}     # which connection the transcript is
-REDUCED = set(MULTI_CONN) | {"t12tk", "t13tk", "t13hrr"}     # configurations explored for their special messages: reduced sampling of the generic classes
+# configurations explored for their special messages, and near-duplicates of another configuration (same code paths up to the
+# cipher suite / key type): reduced sampling of the generic classes in the quick tier; the always-run classes are not affected
+REDUCED = set(MULTI_CONN) | {"t12tk", "t13tk", "t13hrr"}
+REDUCED_QUICK = {"t12rsa", "t12ec", "t13cha", "d12cbc"}
 # ext-matrix: the configuration that delivers the full grid for a handshake message (type, TLS 1.3?); the others get a sample
 EXT_GRID = {("t13ca", 1), ("t13ca", 2), ("t13ca", 8), ("t13ca", 13), ("t13ca", 11), ("t13tk", 4), ("t13hrr", 2), ("t13hrr", 1), ("t13tk2", 1), ("t13tk2", 2),
             ("t12", 1), ("t12", 2)}
@@ -786,6 +789,7 @@ def build_cases(caps, rng, per_state, classes_seen):
             # configurations added for their later connections share most of their states' code with the single-connection
             # ones: there only the directed classes are always-run and the sampled classes get half of the budget in total
             reduced = cfg in REDUCED
+            halved = reduced or (per_state < 100 and cfg in REDUCED_QUICK)
             pick, singles = [], []
             for cl in sorted(byc):
                 GENERATED[cl] = GENERATED.get(cl, 0) + len(byc[cl])
@@ -798,12 +802,12 @@ def build_cases(caps, rng, per_state, classes_seen):
                     byc[cl] = [x for x in byc[cl] if first[x[3]] is not x]
                     continue
                 singles.append(byc[cl].pop()[:3])
-            if reduced:
+            if halved:
                 r.shuffle(singles); singles = singles[:per_state // 2]
             pick += singles
             rest = [x[:3] for cl in sorted(byc) for x in byc[cl]]
             r.shuffle(rest)
-            pick += rest[:max(0, (0 if reduced else per_state) - len(pick))]
+            pick += rest[:max(0, (0 if halved else per_state) - len(pick))]
             for (cl, fl, chunks) in pick:
                 classes_seen[cl] = classes_seen.get(cl, 0) + 1
                 cases.append((cl, "x %s %d %s %s %s" % (cfg, k, units[k].to, fl or "-", " ".join(vlib.hexs(c) for c in chunks))))
@@ -1414,7 +1418,7 @@ def explore(ck, h, quick_per_state, thorough_per_state):
         lines = lines + sn
     # paint differential: legal traces of every configuration, all corpus / directed cases, a deterministic sample of
     # the exploration (every case in thorough)
-    step = ck.budget(12, 1)
+    step = ck.budget(18, 1)
     ncorp = len(corp)
     idx = list(range(ncorp)) + list(range(ncorp, ncorp + len(cases), step))
     pl = ["cap %s" % c for c in CFGS] + [lines[i] for i in idx] + sn
